@@ -166,3 +166,35 @@ def resolve_alias(P, F, n):
         n = sc(nl.vals[n["r"]])
         seen += 1
     return n
+
+
+def local_lambda_calls(P, F, node):
+    """calls, inside `node`, of lambdas declared as locals of F whose body is more than one return statement (those are not
+    looked through by the naming-local machinery): [(call node, lambda variable name)]"""
+    lam_vars = {}
+    for v in F.walk():
+        if v.get("k") == "VarDecl" and v.get("c"):
+            i0 = v["c"][0]
+            while i0 is not None and i0.get("k") in ("ExprWithCleanups", "MaterializeTemporaryExpr", "CXXBindTemporaryExpr", "CXXConstructExpr", "ImplicitCastExpr") and i0.get("c"):
+                kids = [x for x in i0["c"] if x is not None]
+                if len(kids) != 1:
+                    break
+                i0 = kids[0]
+            if i0 is not None and i0.get("k") == "LambdaExpr":
+                op = P.funcs.get(i0.get("lam"))
+                single = False
+                if op is not None and op.body is not None:
+                    st = [x for x in (op.body.get("c") or []) if x is not None] if op.body.get("k") == "CompoundStmt" else [op.body]
+                    single = len(st) == 1 and st[0].get("k") == "ReturnStmt"
+                if not single:
+                    lam_vars[v["r"]] = v.get("n")
+    out = []
+    for n in F.walk(node):
+        if n.get("k") == "CXXOperatorCallExpr" and n.get("op") == "()" and n.get("c"):
+            kids = [x for x in n["c"] if x is not None]
+            for x in kids[:2]:
+                x0 = sc(x)
+                if x0 is not None and x0.get("k") == "DeclRefExpr" and x0.get("r") in lam_vars:
+                    out.append((n, lam_vars[x0["r"]]))
+                    break
+    return out
